@@ -12,7 +12,7 @@ Extraction "lospan_model.ml"
   cmd_encode cmd_decode new_cmd cmd_len new_set set_add set_remove set_list set_encoded_length set_size set_encode
   decode_bounded layout_payload layout_fields
   decode encode mk_slice new_phy spec_decode spec_cmds spec_set s_adr s_adrackreq s_ack s_fpending s_is_data s_uplink cmd_payload_dec
-  prunf trace uplink_prog join_prog recover mic_ok interleave itrace exec interleaveN
+  prunf trace uplink_prog join_prog recover mic_ok interleave itrace exec interleaveN itraceN
   rx_event submit encode_message encode_join_accept encode_join_request decode_join_accept nwkskey_from_nonces appskey_from_nonces
   dt_by_eui dt_by_devaddr dt_get dt_put key_empty max_payload
   gw_unmarshal gw_marshal gw_step encode_and_send key_present lookup_frequency authorised
